@@ -386,6 +386,13 @@ def run_scenario(c, mod, sc: Scenario, clauses, param="data"):
     cand = list(out["result"].keys()) if isinstance(out["result"], dict) else []
     env["forall_val"] = lambda f, cand=cand: all(bool(f(k)) for k in cand)
     bad = []
+    # a scenario outside the precondition says nothing about the contract
+    for rq in c.requires:
+        try:
+            if not bool(eval(compile_clause(rq), env)):  # noqa: S307
+                return [], desc + " (outside the precondition)"
+        except Exception:  # noqa: BLE001
+            return [], desc + " (precondition not evaluable)"
     for name, expr in clauses.items():
         if name == "modifies-nothing":
             val = (before == after) or is_oneshot
